@@ -37,6 +37,7 @@ SIG = {
     'scale_tuning': 'C14:scale_discards_tuning_octave_ratio',
     'pdelta_input': 'C14:pdelta_stale_input_event',
     'pchain_return': 'C14:pchain_returns_transformed_event',
+    'ppar_rest': 'C14:ppar_rest_stretched_twice',
 }
 HEADER = ('From Coq Require Import ZArith QArith List Bool String. Import ListNotations.\n'
           'Require Import SC3.lib.PyNum SC3.model.TaskQ SC3.model.Event.\nOpen Scope string_scope. Open Scope list_scope.\n')
@@ -390,6 +391,13 @@ def gen_pat(rng, depth, st):
         return out
     if r < 0.7:
         a, b = gen_kvs(rng, rests=False), gen_kvs(rng)
+        if rng.random() < 0.3:
+            # the event given to Ppar carries a stretch (and other keys): Pchain(Ppar(voices), Pbind(stretch = ...))
+            voices = [['bind', gen_kvs(rng)] for _ in range(rng.randint(2, 3))]
+            n = rng.randint(3, 8)
+            inner = [['stretch', ['rep', rng.choice([F(2), F('1/2'), I(2), F('3/2')])]],
+                     ['pan', ['seq', [numval(rng, -1, 1) for _ in range(n)]]]]
+            return ['chain', [['par', voices], ['bind', inner]]]
         first = ['bind', a]
         if rng.random() < 0.3:      # the outer pattern delays itself: its input events are the inner pattern's outputs
             first = ['delta', rng.choice([F('1/2'), F(1), I(1), F(0)]), first]
@@ -422,7 +430,7 @@ def force_legato(t):
 def gen_pat_case(rng):
     proto = {'legato': rng.choice([F('1/2'), F(1), F('1/4'), F('3/4'), F(0)])}
     if rng.random() < 0.25: proto['amp'] = F('1/4')
-    if rng.random() < 0.1: proto['stretch'] = rng.choice([F(2), F('1/2')])
+    if rng.random() < 0.2: proto['stretch'] = rng.choice([F(2), F('1/2'), I(2), F('3/2')])
     if rng.random() < 0.15: proto['instrument'] = ['S', 'c14c']
     pat = gen_pat(rng, rng.choice([0, 1, 1, 2, 2, 3]), {'under_dur': False, 'mono_used': False})
     if rng.random() < 0.12:          # an EMPTY proto: `proto or dict()`, `inevent or dict()`, an empty NoteEvent is falsy
@@ -584,6 +592,10 @@ def battery():
                                             ['bind', [['pan', ['seq', [I(1), I(2), I(3), I(4)]]]]]]])),
         (SIG['pchain_return'], pc(['seq', [['chain', [bind(dur=[F(1)]), ['bind', [['pan', ['seq', [I(1), I(2), I(3)]]]]]]],
                                             bind(dur=[F('1/2'), F('1/2')])], 1, 0])),
+        (SIG['ppar_rest'], pc(['par', [bind(dur=[I(1), I(1)], pan=I(0)), bind(dur=[F('1/2')], pan=I(1))]],
+                              proto={'legato': F('1/2'), 'stretch': I(2)})),
+        (SIG['ppar_rest'], pc(['chain', [['par', [bind(dur=[I(1), I(1)], pan=I(0)), bind(dur=[F('1/2')], pan=I(1))]],
+                                         ['bind', [['stretch', ['rep', F(2)]]]]]])),
         (SIG['scale_key'], kc({'degree': I(2)}, minor)),
         (SIG['scale_tuning'], {'kind': 'scale', 'scale': wide}),
         (SIG['scale_tuning'], kc({'degree': I(4)}, wide)),
@@ -949,7 +961,8 @@ def search(ctx, failures):
     return found
 
 
-THEOREM_OF = {SIG['pchain_return']: 'a pattern that ends hands the event it was sent, unchanged, to the pattern embedded next',
+THEOREM_OF = {SIG['ppar_rest']: 'ppar_preserves_child_timelines',
+              SIG['pchain_return']: 'a pattern that ends hands the event it was sent, unchanged, to the pattern embedded next',
               SIG['pdelta_input']: 'streams share no state with their inputs (Pchain feeds every pattern its current input)',
               SIG['rest']: 'player_times', SIG['pdur_dict']: 'pdur_total_duration', SIG['pdur_int']: 'pdur_total_duration',
               SIG['scale_key']: 'explicit_key_precedence', SIG['scale_tuning']: 'pitch_chain'}
